@@ -59,8 +59,12 @@ func decodeBackInto(b []byte, text bool, dirtyIdx int) (*ref.Frame, error) {
 		_ = q.DecodeFOptsToMACCommands()
 	}
 	if text {
-		if err := q.UnmarshalText([]byte(base64.StdEncoding.EncodeToString(b))); err != nil {
+		txt := []byte(base64.StdEncoding.EncodeToString(b))
+		if err := q.UnmarshalText(txt); err != nil {
 			return nil, fmt.Errorf("UnmarshalText: %v", err)
+		}
+		if string(txt) != base64.StdEncoding.EncodeToString(b) {
+			return nil, fmt.Errorf("UnmarshalText overwrote the text it was given: %q became %q", base64.StdEncoding.EncodeToString(b), txt)
 		}
 	} else {
 		buf := append([]byte{}, b...)
